@@ -369,7 +369,7 @@ def record_corpus_case(cid, Ts, fmt, opts, sep, mods, seed, origin='tlc'):
     inputs = []
     if fmt == 'export':
         parts = [render_export(T, s, four, rnd) for T, s in zip(Ts, sids)]
-        text = rnd.choice(['', '%% header\n#FORMAT 4\n#BOT ORIGIN\n#EOT ORIGIN\n']) + \
+        text = rnd.choice(['', '%%%% header\n#FORMAT %d\n#BOT ORIGIN\n#EOT ORIGIN\n' % (4 if four else 3)]) + \
             rnd.choice(['', '\n', '%% between\n']).join(parts)
         inputs = [export_lines(p) for p in parts]
         expsids = [k + 1 for k in range(len(Ts))] if 'continuous' in opts else sids
